@@ -187,3 +187,63 @@ def spill_index_cases():
                         + (sum((fp_cells("d", FPV["2.5"] if k % 2 else FPV["-1.5"], 8) for k in range(8)), []) if fp else list(bytes(range(0x41, 0x41 + 64)))) + c["buf0"][192:]
                     out.append(c)
     return out
+
+
+def property_cases():
+    """property insns (prset / prbeq / prbne): the specialised way (taken where lazy basic block versioning knows the property) and
+    the general way compute the same value by different insns, so every engine must agree with the specification, which follows
+    the general way.  Shapes: the property set and tested in one block, across a branch, across a loop back edge, tested on another
+    variable or for another constant (the specialised way then computes something else: it must not be taken).  What an insn
+    other than a move does to the property of its result is not documented, so no shape depends on it."""
+    out = []
+    X, Y, RES, CNT = 2, 3, 4, 5
+    fast = [ins("add", R(RES), R(X), R(X))]
+    slow = [ins("mul", R(RES), R(X), I(2))]
+    wrong = [ins("mov", R(RES), I(12345))]
+    def sel(test, c, spec_way, gen_way):
+        # `test L, x, c`: spec_way runs where the test is not taken by property 0; the two ways are equivalent
+        return [br(test, "f", R(X), I(c))] + (slow if True else []) + [{"op": "jmp", "l": "j"}, "f"] + gen_way + ["j"]
+    shapes = {
+        # prbeq with c # 0 is taken only when the property is known to be c: fast (taken) = slow (not taken)
+        "set_test": [ins("prset", None, R(X), I(3)), br("prbeq", "f", R(X), I(3))] + slow + [{"op": "jmp", "l": "j"}, "f"] + fast + ["j"],
+        "set_branch_test": [ins("prset", None, R(X), I(3)), br("bt", "k", R(Y)), ins("add", R(Y), R(Y), I(1)), "k",
+                            br("prbeq", "f", R(X), I(3))] + slow + [{"op": "jmp", "l": "j"}, "f"] + fast + ["j"],
+        "set_loop_test": [ins("prset", None, R(X), I(2)), ins("mov", R(CNT), I(0)), ins("mov", R(RES), I(0)),
+                          "lp", br("prbeq", "f", R(X), I(2)), ins("mul", R(Y), R(X), I(2)), {"op": "jmp", "l": "j"}, "f", ins("add", R(Y), R(X), R(X)), "j",
+                          ins("add", R(RES), R(RES), R(Y)), ins("add", R(CNT), R(CNT), I(1)), br("blt", "lp", R(CNT), I(3))],
+        "other_var": [ins("prset", None, R(Y), I(3)), br("prbeq", "f", R(X), I(3))] + slow + [{"op": "jmp", "l": "j"}, "f"] + wrong + ["j"],
+        "other_const": [ins("prset", None, R(X), I(4)), br("prbeq", "f", R(X), I(3))] + slow + [{"op": "jmp", "l": "j"}, "f"] + wrong + ["j"],
+        "via_move": [ins("prset", None, R(X), I(3)), ins("mov", R(CNT), R(X)), br("prbeq", "f", R(CNT), I(3))] + slow + [{"op": "jmp", "l": "j"}, "f"] + fast + ["j"],
+        "after_call": [ins("prset", None, R(X), I(3)), {"op": "call", "callee": {"k": "ext"}, "res": [R(CNT)], "args": [I(4), R(Y)]},
+                       br("prbeq", "f", R(X), I(3))] + slow + [{"op": "jmp", "l": "j"}, "f"] + fast + ["j", ins("add", R(RES), R(RES), R(CNT))],
+        "mem_prop": [ins("mov", M("i64", 128, 1), R(X)), ins("prset", None, M("i64", 128, 1), I(5)), br("prbeq", "f", M("i64", 128, 1), I(5))]
+                    + slow + [{"op": "jmp", "l": "j"}, "f"] + fast + ["j"],
+        "mem_prop_store_between": [ins("mov", M("i64", 128, 1), R(X)), ins("prset", None, M("i64", 128, 1), I(5)), ins("mov", M("i64", 136, 1), R(Y)),
+                                   br("prbeq", "f", M("i64", 128, 1), I(5))] + slow + [{"op": "jmp", "l": "j"}, "f"] + fast + ["j"],
+        "set_in_loop": [ins("mov", R(CNT), I(0)), ins("mov", R(RES), I(0)),
+                        "lp", br("prbeq", "f", R(X), I(2)), ins("mul", R(Y), R(X), I(2)), {"op": "jmp", "l": "j"}, "f", ins("add", R(Y), R(X), R(X)), "j",
+                        ins("prset", None, R(X), I(2)), ins("add", R(RES), R(RES), R(Y)), ins("add", R(CNT), R(CNT), I(1)), br("blt", "lp", R(CNT), I(4))],
+        "two_props": [ins("prset", None, R(X), I(3)), ins("prset", None, R(Y), I(4)), br("prbeq", "f", R(X), I(3))] + slow + [{"op": "jmp", "l": "j"}, "f",
+                      br("prbne", "g", R(Y), I(4))] + fast + [{"op": "jmp", "l": "j"}, "g"] + slow + ["j"],
+        "nested_loops": [ins("prset", None, R(X), I(2)), ins("mov", R(RES), I(0)), ins("mov", R(CNT), I(0)),
+                         "o", ins("mov", R(Y), I(0)),
+                         "i", br("prbeq", "f", R(X), I(2)), ins("mul", R(6), R(X), I(2)), {"op": "jmp", "l": "j"}, "f", ins("add", R(6), R(X), R(X)), "j",
+                         ins("add", R(RES), R(RES), R(6)), ins("add", R(Y), R(Y), I(1)), br("blt", "i", R(Y), I(2)),
+                         ins("add", R(CNT), R(CNT), I(1)), br("blt", "o", R(CNT), I(2))],
+        "prbne": [ins("prset", None, R(X), I(3)), br("prbne", "f", R(X), I(3))] + fast + [{"op": "jmp", "l": "j"}, "f"] + slow + ["j"],
+        "prbne_unknown": [br("prbne", "f", R(X), I(0))] + slow + [{"op": "jmp", "l": "j"}, "f"] + wrong + ["j"],
+        "zero_known": [ins("prset", None, R(X), I(0)), br("prbeq", "f", R(X), I(0))] + wrong + [{"op": "jmp", "l": "j"}, "f"] + slow + ["j"],
+    }
+    for name, body in sorted(shapes.items()):
+        for x, y in ((21, 0), (-7, 1), (1 << 40, 5)):
+            items = [ins("mov", R(X), M("i64", 0, 1)), ins("mov", R(Y), M("i64", 8, 1)), ins("mov", R(RES), I(0))] + body + [
+                ins("mov", M("i64", 192, 1), R(RES)), ins("mov", M("i64", 200, 1), R(X)), {"op": "ret", "s": [R(RES)]}]
+            fixed = []
+            for it in items:
+                if isinstance(it, dict) and it.get("op") == "prset":
+                    it = {"op": "prset", "s": it["s"]}
+                fixed.append(it)
+            insns, _ = progs.assemble(fixed)
+            w = lambda v: (v & ((1 << 64) - 1)).to_bytes(8, "little")
+            out.append(progs.family_case(insns, 6, w(x) + w(y)))
+    return out
